@@ -761,5 +761,11 @@ def object_position(ctx):
     return res
 
 
-RULES = [parax_eq, invariant_step, parax_linear, crossing, signed_return,
+def no_stale(ctx):
+    from .common import stale_cache
+    return stale_cache(ctx, 'NO-STALE-STATE', ['Paraxial'],
+                       'paraxial results no longer describe the current lens')
+
+
+RULES = [no_stale, parax_eq, invariant_step, parax_linear, crossing, signed_return,
          fno_epd, mag_inv, inverted4, object_position]
